@@ -70,18 +70,19 @@ Example C03_regex_inverts_printer_checks_except_nonvacuous :
 Proof. split; [exact w_tab_full_print|split; [exact w_tab_full_body_free|vm_compute; reflexivity]]. Qed.
 
 (** 2c. setGenExpr on a generated column as the planner writes it -- after "(" or ",", spaces, `name`
-    (name in \w+), any comma-free text (type, NULL), AS, spaces, the wrapped expression: if no match of
+    (name in \w+), a white-space byte (required by the regexp since the fix "sqlite inspection looks for the
+    generated-column expression after the whole column name"), any comma-free text (type, NULL), AS, spaces, the wrapped expression: if no match of
     the column's regexp starts earlier in the statement and no further "AS (" follows in the same
     comma-free stretch, the expression is recovered exactly.  Both premises are decidable on the text
     and both are necessary (3b). *)
 Theorem C03_regex_inverts_printer_genexpr_except :
-  forall name pre c sp1 mid w e rest,
-  name_ok name -> open_ch c = true -> forallb is_space sp1 = true ->
+  forall name pre c sp1 s0 mid w e rest,
+  name_ok name -> open_ch c = true -> forallb is_space sp1 = true -> is_space s0 = true ->
   forallb not_comma mid = true -> forallb is_space w = true -> wrapped e ->
   last_as (tl e ++ rest) = None ->
   no_start_before _ (match_gen_at name)
-    (pre ++ c :: sp1 ++ bt_ident name ++ mid ++ K_AS ++ w ++ e ++ rest) (List.length pre) = true ->
-  set_gen_expr name (pre ++ c :: sp1 ++ bt_ident name ++ mid ++ K_AS ++ w ++ e ++ rest) = GenOk e.
+    (pre ++ c :: sp1 ++ bt_ident name ++ (s0 :: mid) ++ K_AS ++ w ++ e ++ rest) (List.length pre) = true ->
+  set_gen_expr name (pre ++ c :: sp1 ++ bt_ident name ++ (s0 :: mid) ++ K_AS ++ w ++ e ++ rest) = GenOk e.
 Proof. exact set_gen_expr_printed. Qed.
 Print Assumptions C03_regex_inverts_printer_genexpr_except.
 
@@ -105,11 +106,17 @@ Example C03_regex_inverts_printer_autoinc_except_nonvacuous :
   autoinc w_tab_full_text [B "id"; B "a"; B "b"; B "cx"; B "c"] [B "id"] = AutoOk (B "id").
 Proof. vm_compute. reflexivity. Qed.
 
-(** 2e. the predicate of a partial index as the planner writes it: if the letters WHERE (upper case)
-    do not occur before the keyword, the predicate is recovered (trimmed). *)
+(** 2e. the predicate of a partial index as the planner writes it -- the statement up to the closing
+    parenthesis of the parts, spaces, WHERE, a white-space byte, the predicate: if no match of reIdxWhere
+    (")" + spaces + WHERE in any case + white space) starts earlier in the statement, the predicate is
+    recovered (trimmed).  This is addIndexes since the fix "sqlite inspection finds the predicate of a partial
+    index after the closing parenthesis of the index parts"; before it the premise had to be "the upper-case
+    letters WHERE do not occur before the keyword" (index_predicate_old_printed, and 3d). *)
 Theorem C03_regex_inverts_printer_predicate_except :
-  forall pre c p, occurs_cs K_WHERE pre = false -> ~ In c K_WHERE ->
-  index_predicate (pre ++ c :: K_WHERE ++ p) = Some (trim_space p).
+  forall pre w1 s0 c p,
+  forallb is_space w1 = true -> is_space s0 = true ->
+  no_start_before _ where_at (pre ++ ch_rp :: w1 ++ K_WHERE ++ s0 :: c :: p) (List.length pre) = true ->
+  index_predicate (pre ++ ch_rp :: w1 ++ K_WHERE ++ s0 :: c :: p) = Some (ExportModel.trim_space (s0 :: c :: p)).
 Proof. exact index_predicate_printed. Qed.
 Print Assumptions C03_regex_inverts_printer_predicate_except.
 
@@ -146,30 +153,51 @@ Proof.
 Qed.
 Print Assumptions C03_regex_inverts_printer_checks_refuted.
 
-(** 3b. setGenExpr: in the planner's own CREATE TABLE with generated columns `cx` AS (a + 1)
-    and `c` AS (a * 2), column c is given cx's expression (the name is matched without a
-    boundary); and a string literal holding "AS (" inside the expression is taken for the
-    start of the expression. *)
+(** 3b. setGenExpr: a string literal holding "AS (" inside the expression is taken for the start of the
+    expression.  (The other former witness -- generated columns `cx` AS (a + 1) and `c` AS (a * 2) of the
+    planner's own CREATE TABLE, column c given cx's expression because the name was matched without a
+    boundary, known findings C03-prefix-column-names = C01-gen-col-name-prefix -- is FIXED in the Go code;
+    [C03_prefix_column_names_fixed] states the new behaviour and what the OLD regexp did.) *)
 Theorem C03_regex_inverts_printer_refuted_genexpr :
-  set_gen_expr (B "c") w_gen_text = GenOk (B "(a + 1)") /\
   set_gen_expr (B "g") w_gen_as_text = GenOk (B "(x')").
-Proof. exact (conj (proj1 w_gen_prefix) w_gen_as). Qed.
+Proof. exact w_gen_as. Qed.
 Print Assumptions C03_regex_inverts_printer_refuted_genexpr.
+Theorem C03_prefix_column_names_fixed :
+  (set_gen_expr (B "c") w_gen_text = GenOk (B "(a * 2)") /\ set_gen_expr (B "cx") w_gen_text = GenOk (B "(a + 1)")) /\
+  (* the old code *) set_gen_expr_old (B "c") w_gen_text = GenOk (B "(a + 1)").
+Proof. exact (conj w_gen_prefix_fixed (proj1 w_gen_prefix)). Qed.
+Print Assumptions C03_prefix_column_names_fixed.
 
-(** 3c. autoinc: a [bracket]-quoted AUTOINCREMENT column is not recognised, and the letters
-    AUTOINCREMENT later in the definition of a plain INTEGER PRIMARY KEY column are. *)
+(** 3c. autoinc: a [bracket]-quoted AUTOINCREMENT column is not recognised (still true); and, for the OLD
+    regexp ([autoinc_old]: PRIMARY\s+KEY\s+[^,]*AUTOINCREMENT), the letters AUTOINCREMENT later in the definition
+    of a plain INTEGER PRIMARY KEY column were -- known finding C03-keyword-in-name-autoinc, FIXED in the Go code
+    (fix "sqlite inspection recognises AUTOINCREMENT only where the grammar allows it"):
+    [C03_autoinc_keyword_in_name_fixed] is the new behaviour on the same statement, and on the longest form
+    the grammar allows (PRIMARY KEY DESC ON CONFLICT REPLACE AUTOINCREMENT). *)
 Theorem C03_autoinc_refuted :
   autoinc w_auto_bracket [B "id"; B "b"] [B "id"] = AutoNone /\
-  autoinc w_auto_phantom [B "id"; B "autoincrement_x"] [B "id"] = AutoOk (B "id").
+  autoinc_old w_auto_phantom [B "id"; B "autoincrement_x"] [B "id"] = AutoOk (B "id").
 Proof. exact w_autoinc. Qed.
 Print Assumptions C03_autoinc_refuted.
+Theorem C03_autoinc_keyword_in_name_fixed :
+  autoinc w_auto_phantom [B "id"; B "autoincrement_x"] [B "id"] = AutoNone /\
+  autoinc w_auto_full [B "id"; B "b"] [B "id"] = AutoOk (B "id").
+Proof. exact w_autoinc_fixed. Qed.
+Print Assumptions C03_autoinc_keyword_in_name_fixed.
 
-(** 3d. partial-index predicate: the planner's own CREATE INDEX `ix_WHERE_y` ... WHERE a > 0 is cut
-    at the WHERE inside the name; a lower-case `where` is not found at all (inspection fails). *)
+(** 3d. partial-index predicate, the OLD code (strings.Index(stmt, "WHERE"); known findings C03-where-in-name
+    and C03-lowercase-where, both FIXED in the Go code): the planner's own CREATE INDEX `ix_WHERE_y` ... WHERE a > 0
+    was cut at the WHERE inside the name; a lower-case `where` was not found at all (inspection failed).
+    [C03_index_predicate_fixed]: what addIndexes returns on the same two statements since the fix. *)
 Theorem C03_index_predicate_refuted :
-  index_predicate (B "CREATE INDEX `ix_WHERE_y` ON `t` (`a`) WHERE a > 0") = Some (B "_y` ON `t` (`a`) WHERE a > 0") /\
-  index_predicate (B "CREATE INDEX i on t (a) where a > 0") = None.
+  index_predicate_old (B "CREATE INDEX `ix_WHERE_y` ON `t` (`a`) WHERE a > 0") = Some (B "_y` ON `t` (`a`) WHERE a > 0") /\
+  index_predicate_old (B "CREATE INDEX i on t (a) where a > 0") = None.
 Proof. exact w_where. Qed.
+Theorem C03_index_predicate_fixed :
+  index_predicate (B "CREATE INDEX `ix_WHERE_y` ON `t` (`a`) WHERE a > 0") = Some (B "a > 0") /\
+  index_predicate (B "CREATE INDEX i on t (a) where a > 0") = Some (B "a > 0").
+Proof. exact w_where_fixed. Qed.
+Print Assumptions C03_index_predicate_fixed.
 Print Assumptions C03_index_predicate_refuted.
 
 (** 3e. fillConstName: of two foreign keys with the same columns and target the first one of the
@@ -348,15 +376,17 @@ Example C03_regex_inverts_printer_table_nonvacuous :
 Proof. split; [exact w_tab_full_print|vm_compute; split; reflexivity]. Qed.
 
 (** 2h. the partial-index predicate composed over the tied printer ([print_index] = addIndexes after
-    normalizeIdxName): for every index with a trimmed, non-empty predicate [p], if the upper-case letters
-    WHERE do not occur in the statement before the keyword ([index_head]: CREATE [UNIQUE] INDEX `name` ON
-    `table` (parts)), the inspector reads back exactly [p].  3d is the failure without the premise. *)
+    normalizeIdxName): for every index with a trimmed, non-empty predicate [p], if no match of reIdxWhere
+    (")" + spaces + WHERE in any case + white space) starts before the closing parenthesis of ([index_head]:
+    CREATE [UNIQUE] INDEX `name` ON `table` (parts)), the inspector reads back exactly [p].  The premise is
+    decidable on the text; it fails only for a name or expression that itself contains ") WHERE ". *)
 Theorem C03_regex_inverts_printer_predicate_index_except :
   forall t i0 i p txt,
   normalize_idx_name i0 t = Some i -> i_pred i = Some p -> p <> [] -> ExportModel.trim_space p = p ->
   is_go_space (last_byte p) = false ->
-  occurs_cs K_WHERE (index_head t i) = false ->
-  print_index t i0 = Some txt -> index_predicate txt = Some p.
+  print_index t i0 = Some txt ->
+  no_start_before _ where_at txt (pred (List.length (index_head t i))) = true ->
+  index_predicate txt = Some p.
 Proof. exact index_predicate_print_index. Qed.
 Print Assumptions C03_regex_inverts_printer_predicate_index_except.
 
@@ -364,6 +394,6 @@ Example C03_regex_inverts_printer_predicate_index_nonvacuous :
   let i := mkIndex (B "i1") true [mkPart 1 true (Some (B "a")) None; mkPart 2 false None (Some (B "(a + 1)"))] (Some (B "a > 0")) None None in
   let t := x_t w_tab_full in
   print_index t i = Some (B "CREATE UNIQUE INDEX `i1` ON `t` (`a` DESC, (a + 1)) WHERE a > 0") /\
-  occurs_cs K_WHERE (index_head t i) = false /\
+  no_start_before _ where_at (B "CREATE UNIQUE INDEX `i1` ON `t` (`a` DESC, (a + 1)) WHERE a > 0") (pred (List.length (index_head t i))) = true /\
   index_predicate (B "CREATE UNIQUE INDEX `i1` ON `t` (`a` DESC, (a + 1)) WHERE a > 0") = Some (B "a > 0").
 Proof. vm_compute. repeat split; reflexivity. Qed.
